@@ -138,6 +138,14 @@ def producing_method(t, facts=None, inter=None):
 
 
 _OV = {}
+_DD = {}
+
+
+def _entry_name(facts, root):
+    from ..panics import Discharger
+    D = _DD.setdefault(id(facts), Discharger(facts))
+    owner = re.sub(r"(::\{closure#\d+\})+$", "", D.owner_id(root))
+    return owner.rsplit("::", 1)[-1]
 
 
 def run_world(facts, rep, w, floors):
@@ -158,7 +166,8 @@ def run_world(facts, rep, w, floors):
             if variant is None:
                 continue
             meth = producing_method(eterm, facts, inter) if eterm else None
-            key = (root.name, meth, variant)
+            # (a private helper with a single entry point counts as that entry point: `fn copy_file_internal` is copy_file)
+            key = (_entry_name(facts, root), meth, variant)
             ok = key in ESCAPES
             n_kind_escapes += 1
             # which kind arms continue normally?  an arm is an escape iff it can reach an Ok return
